@@ -13,6 +13,14 @@ from .engine import (ReturnSig, BreakSig, ContinueSig, PyRaise, PathEnd, Cx, fun
 from . import strings as S
 
 
+def skind(v):
+    """scalar kind of a value (lazy subclasses count as their base kind)"""
+    for k in (VBool, VInt, VStr, VBytes):
+        if isinstance(v, k):
+            return k
+    return type(v)
+
+
 class Frame:
     def __init__(self, fn_name, locals_, glob, contract=None, builtins_=None):
         self.fn_name, self.locals, self.glob, self.contract = fn_name, locals_, glob, contract
@@ -40,7 +48,7 @@ class Interp:
         ctx = self.ctx
         if isinstance(v, VBool): return v.term
         if isinstance(v, VInt): return v.term != 0
-        if isinstance(v, (VStr, VBytes)): return S.nonempty(v.term)
+        if isinstance(v, (VStr, VBytes)): return S.nonempty(v)
         if isinstance(v, VNone): return z3.BoolVal(False)
         if isinstance(v, VTuple): return z3.BoolVal(len(v.items) > 0)
         if isinstance(v, VList): return z3.Length(v.seqs[0]) > 0
@@ -335,29 +343,27 @@ class Interp:
         raise PyRaise(v)
 
     def x_Try(self, s):
-        try:
-            try:
-                self.exec_block(s.body)
-            except PyRaise as pr:
-                exc = pr.exc
-                for h in s.handlers:
-                    if self.handler_matches(h, exc):
-                        if h.name:
-                            self.fr.locals[h.name] = exc
-                        prev = getattr(self.fr, 'handling', None)
-                        self.fr.handling = exc
-                        try:
-                            self.exec_block(h.body)
-                        finally:
-                            self.fr.handling = prev
-                        break
-                else:
-                    raise
-            else:
-                self.exec_block(s.orelse)
-        finally_ran = False
         if s.finalbody:
             raise OutOfSubset('try/finally')
+        try:
+            self.exec_block(s.body)
+        except PyRaise as pr:
+            exc = pr.exc
+            for h in s.handlers:
+                if self.handler_matches(h, exc):
+                    if h.name:
+                        self.fr.locals[h.name] = exc
+                    prev = getattr(self.fr, 'handling', None)
+                    self.fr.handling = exc
+                    try:
+                        self.exec_block(h.body)
+                    finally:
+                        self.fr.handling = prev
+                    break
+            else:
+                raise
+        else:
+            self.exec_block(s.orelse)
 
     def handler_matches(self, h, exc):
         if h.type is None:
@@ -704,7 +710,7 @@ class Interp:
         return True
 
     def merge(self, cond, a, b):
-        if type(a) is not type(b):
+        if skind(a) is not skind(b):
             if isinstance(a, (VInt, VBool)) and isinstance(b, (VInt, VBool)):
                 at = a.term if isinstance(a, VInt) else z3.If(a.term, 1, 0)
                 bt = b.term if isinstance(b, VInt) else z3.If(b.term, 1, 0)
@@ -795,6 +801,9 @@ class Interp:
         if isinstance(op, (ast.In, ast.NotIn)):
             r = self.contains(b, a)
             return z3.Not(r) if neg else r
+        r = self.lazy_len_compare(op, a, b)
+        if r is not None:
+            return r
         ai, bi = self.as_int(a), self.as_int(b)
         if ai is not None and bi is not None:
             la = a.len_of if isinstance(a, VInt) else None
@@ -806,16 +815,27 @@ class Interp:
             return self.models.str_order(self, op, a, b)
         raise OutOfSubset('comparison %s between %r and %r' % (op.__class__.__name__, a, b))
 
+    def lazy_len_compare(self, op, a, b):
+        """len(<regular string>) against a concrete int without building the Length term."""
+        if isinstance(a, VLazyLen) and isinstance(b, VInt) and not isinstance(b, VLazyLen) and self.is_concrete_int(b):
+            return S.int_compare(op, None, b.term, a.len_of, None)
+        if isinstance(b, VLazyLen) and isinstance(a, VInt) and not isinstance(a, VLazyLen) and self.is_concrete_int(a):
+            return S.int_compare(S._FLIP[type(op)](), None, a.term, b.len_of, None)
+        return None
+
     def equal(self, a, b):
         if isinstance(a, VNone) or isinstance(b, VNone):
             return z3.BoolVal(isinstance(a, VNone) and isinstance(b, VNone))
+        r = self.lazy_len_compare(ast.Eq(), a, b)
+        if r is not None:
+            return r
         ai, bi = self.as_int(a), self.as_int(b)
         if ai is not None and bi is not None:
             la = a.len_of if isinstance(a, VInt) else None
             lb = b.len_of if isinstance(b, VInt) else None
             r = S.int_compare(ast.Eq(), ai, bi, la, lb)
             return r
-        if isinstance(a, (VStr, VBytes)) and type(a) is type(b):
+        if isinstance(a, (VStr, VBytes)) and skind(a) is skind(b):
             return S.str_equal(a, b)
         if isinstance(a, (VStr, VBytes, VInt, VBool)) and isinstance(b, (VStr, VBytes, VInt, VBool)):
             return z3.BoolVal(False)          # different builtin scalar kinds never compare equal
@@ -851,8 +871,8 @@ class Interp:
         raise OutOfSubset('identity between %r and %r' % (a, b))
 
     def contains(self, cont, item):
-        if isinstance(cont, (VStr, VBytes)) and type(item) is type(cont):
-            return S.contains(cont.term, item.term)
+        if (isinstance(cont, VStr) and isinstance(item, VStr)) or (isinstance(cont, VBytes) and isinstance(item, VBytes)):
+            return S.contains_v(cont, item.term)
         if isinstance(cont, VDict):
             return self.ctx.dict_has(cont, self.coerce_key(cont, item))
         if isinstance(cont, VTuple):
@@ -962,6 +982,9 @@ class Interp:
             _, lo, hi, step = idx
             if step is not None:
                 raise OutOfSubset('slice step')
+            if (isinstance(obj, VStr) and not isinstance(obj, VLazySuffix) and hi is None and lo is not None
+                    and self.is_concrete_int(lo) and self.concrete_int(lo) >= 0 and S.regular_var(obj.term)):
+                return VLazySuffix(ctx, obj.term, self.concrete_int(lo))
             if isinstance(obj, (VStr, VBytes)):
                 t = S.slice_(ctx, obj.term, lo.term if lo else None, hi.term if hi else None,
                              lo_const=self.is_concrete_int(lo) if lo else True,
